@@ -184,6 +184,7 @@ pub fn c07(tier: Tier) -> Check {
             "NACK minimality is judged among encodings whose decoded sequence is ascending (no word wraps past 65535)",
         ],
         legs: vec![
+            super::reuse::reuse_leg("C07", tier),
             Box::new(RandomLeg { name: "random-configs", cases, make: Box::new(valid_build_case), oracle: c07_oracle }),
             Box::new(SweepLeg {
                 name: "bye-reason-x-padding",
